@@ -22,6 +22,9 @@ type shCase struct {
 	Idx        uint32   `json:"idx"`
 	HT         uint8    `json:"hash_type"`
 	NoTxID     bool     `json:"no_txid"`
+	// OtherNoTxID: ANOTHER input is a placeholder without a previous txid (a partially built
+	// ANYONECANPAY transaction); used with ANYONECANPAY types only, whose digest does not look at it
+	OtherNoTxID bool `json:"another_input_without_txid,omitempty"`
 	// ViaJSON (with NoTxID): the input was decoded from a JSON document without a txid, which
 	// leaves an empty, non-nil txid behind instead of a nil one
 	ViaJSON bool `json:"no_txid_via_json,omitempty"`
@@ -85,6 +88,12 @@ func shBuild(c shCase) (*bt.Tx, []byte) {
 				}
 			}
 			tx.Inputs[c.Idx] = ni
+		}
+		if c.OtherNoTxID && len(tx.Inputs) >= 2 {
+			j := (int(c.Idx) + 1) % len(tx.Inputs)
+			o := tx.Inputs[j]
+			tx.Inputs[j] = &bt.Input{PreviousTxOutIndex: o.PreviousTxOutIndex, SequenceNumber: o.SequenceNumber, PreviousTxSatoshis: o.PreviousTxSatoshis,
+				PreviousTxScript: o.PreviousTxScript, UnlockingScript: o.UnlockingScript}
 		}
 	}
 	return tx, sc
@@ -286,7 +295,7 @@ func shShapes0(thorough bool) []txRecipe {
 
 func init() {
 	p2 := register(&Prop{ID: "C02", Level: "exploration",
-		Rule: "exhaustive product: tx shapes nIn 1..3 x nOut 0..3 (thorough: 1..4 x 0..4) x 3/6 boundary value sets (version, locktime, vout, sequence, spent value, output values in {0,1,max,mid}; plus coinbase-like transactions whose first input spends the null outpoint) x output script length {0,25,253} (thorough: {0,1,25,252,253}) x previous script of the signed input in {empty, 1 byte, contains 0xab, 253 bytes, P2PKH, missing} x previous txid {present, never set, empty after decoding the input from JSON} x input index in {0..nIn-1, nIn, nIn+1, 2^32-1} x all 128 hash types with bit 0x40; oracle: preimage byte-identical to the reference FORKID preimage (reference certified on the node's 500 bip143 + 500 legacy vectors at the start of the run), digest = sha256d, errors exactly for missing input/txid/script, ExtendedBytes unchanged; plus hash -> in-place edit -> hash sequences (3/4 shapes x hash-type pairs x index pairs x 20 single edits incl. pointer replacement, swaps, append/remove) whose second hash must be that of the edited transaction. distinct_nontrivial = distinct reference preimages compared",
+		Rule: "exhaustive product: tx shapes nIn 1..3 x nOut 0..3 (thorough: 1..4 x 0..4) x 3/6 boundary value sets (version, locktime, vout, sequence, spent value, output values in {0,1,max,mid}; plus coinbase-like transactions whose first input spends the null outpoint) x output script length {0,25,253} (thorough: {0,1,25,252,253}) x previous script of the signed input in {empty, 1 byte, contains 0xab, 253 bytes, P2PKH, missing} x previous txid {present, never set, empty after decoding the input from JSON} x input index in {0..nIn-1, nIn, nIn+1, 2^32-1} x all 128 hash types with bit 0x40 (ANYONECANPAY types also with ANOTHER input that has no previous txid yet: the digest is defined and unaffected; every result slice is overwritten by the caller and the call repeated); oracle: preimage byte-identical to the reference FORKID preimage (reference certified on the node's 500 bip143 + 500 legacy vectors at the start of the run), digest = sha256d, errors exactly for missing input/txid/script, ExtendedBytes unchanged; plus hash -> in-place edit -> hash sequences (3/4 shapes x hash-type pairs x index pairs x 20 single edits incl. pointer replacement, swaps, append/remove) whose second hash must be that of the edited transaction. distinct_nontrivial = distinct reference preimages compared",
 	})
 	s2 := NewSpace(p2, "forkid", c02Check)
 	NewSpace(p2, "forkid-seq", shSeqCheck)
@@ -322,6 +331,9 @@ func init() {
 								yield(shCase{R: sh, ScriptKind: sk, Idx: idx, HT: uint8(ht), NoTxID: notx})
 								if notx && ht&0x03 == 1 {
 									yield(shCase{R: sh, ScriptKind: sk, Idx: idx, HT: uint8(ht), NoTxID: true, ViaJSON: true})
+								}
+								if !notx && ht&0x80 != 0 && sh.NIn >= 2 && int(idx) < sh.NIn && ht&0x1c == 0 {
+									yield(shCase{R: sh, ScriptKind: sk, Idx: idx, HT: uint8(ht), OtherNoTxID: true})
 								}
 							}
 						}
